@@ -114,7 +114,9 @@ def independent(case, paths, tfpath):
     if o.get("motion_filter"):
         for t in list(trajs.values()) + ([ref] if ref else []):
             t.motion_filter(o["motion_filter"][0], o["motion_filter"][1], True)
+    pre_merge = None
     if o.get("merge"):
+        pre_merge = sorted(float(x) + float(o.get("t_offset") or 0.0) for t in trajs.values() for x in t.timestamps)
         trajs = {"merged_trajectory": trajectory.merge(list(trajs.values()))}
     if o.get("t_offset"):
         for t in trajs.values():
@@ -144,7 +146,7 @@ def independent(case, paths, tfpath):
     if o.get("plane"):
         for t in list(trajs.values()) + ([ref] if ref else []):
             t.project(trajectory.Plane(o["plane"]))
-    return trajs, ref, pre_tail, A
+    return trajs, ref, pre_tail, A, pre_merge
 
 
 def impl(case):
@@ -203,7 +205,7 @@ def impl(case):
         exported = {f[:-len(ext)]: read_export(os.path.join(outd, f), case["export"] == "kitti")
                     for f in sorted(os.listdir(outd)) if f.endswith(ext)}
         try:
-            trajs, ref, pre_tail, A = independent(case, paths, tfpath)
+            trajs, ref, pre_tail, A, pre_merge = independent(case, paths, tfpath)
         except Exception as e:  # noqa
             import traceback
             return {"exception": "independent pipeline failed: " + type(e).__name__ + str(e)[:100] + traceback.format_exc()[-300:]}
@@ -217,6 +219,8 @@ def impl(case):
             exp["ref"] = {"poses": [H(p) for p in ref.poses_se3],
                           "stamps": H(ref.timestamps) if hasattr(ref, "timestamps") and case["export"] != "kitti" else None}
         out = {"exported": exported, "expected": exp, "argv": argv[1:]}
+        if pre_merge is not None and not (o.get("sync") or o.get("align") or o.get("correct_scale") or o.get("align_origin")):
+            out["merged_union"] = [hexf(x) for x in pre_merge]
         if tfpath:
             from evo.tools import file_interface
             L = file_interface.load_transform(tfpath)
@@ -277,6 +281,12 @@ def judge(case, val, out):
                            "(max deviation %.3g)" % (stem, k, float(np.abs(a - b).max())))
         if e["stamps"] is not None and [unhex(t) for t in e["stamps"]] != [unhex(t) for t in x["stamps"]]:
             return _sv("%s: exported timestamps differ from the documented processing" % stem)
+    if out.get("merged_union") is not None and exported.get("merged_trajectory", {}).get("stamps") is not None:
+        got = [unhex(t) for t in exported["merged_trajectory"]["stamps"]]
+        want = [unhex(t) for t in out["merged_union"]]
+        if len(got) != len(want) or any(abs(a - b) > 1e-6 for a, b in zip(got, want)):
+            return _sv("merged export is not the time-sorted union of the input trajectories (%d stamps, sorted: %s)"
+                       % (len(got), got == sorted(got)))
     stems = [s for s in sorted(expected) if s != "ref"]
     for stem, mposes in zip(stems, val):
         xp = [U(p, (4, 4)) for p in exported[stem]["poses"]]
@@ -353,8 +363,9 @@ def gen(ctx):
             if rng.random() < 0.5:
                 A[:3, :3] *= float(rng.choice([0.5, 2.0, 3.0]))
             right = bool(rng.random() < 0.5)
+            # --propagate_transform only concerns right-multiplication; given with --transform_left it must be ignored
             o["transform"] = {"A": H(A), "file": str(rng.choice(["npy", "txt", "json"])), "right": right,
-                              "invert": bool(rng.random() < 0.5), "propagate": bool(right and rng.random() < 0.5)}
+                              "invert": bool(rng.random() < 0.5), "propagate": bool(rng.random() < (0.5 if right else 0.3))}
         if rng.random() < 0.35:
             o["plane"] = str(rng.choice(["xy", "xz", "yz"]))
         if o.get("merge") and (o.get("align") or o.get("correct_scale")) and o.get("n_to_align"):
